@@ -13,6 +13,7 @@ def compare(sc, build, model, out, desc, norm_got=None, max_ties=5, got_fn=None,
     w, recs = multi.run_real_multi(sc, build, follow=follow)
     want_fn = want_fn or (lambda eng: models.norm(eng.out))
     out.sim_time = sc["horizon"]
+    multi._count_feedback(w, out)
     if w.escaped:
         out.bad("escaped", "%s: %r" % (desc, w.escaped[0][2:]))
     first_wants = None
@@ -31,6 +32,7 @@ def compare(sc, build, model, out, desc, norm_got=None, max_ties=5, got_fn=None,
         def run(mask, t0=t0):
             eng = evmodel.Engine(sc["sources"])
             eng.now = float(t0)
+            eng.feedback = sc.get("feedback")
             model(eng, sc)
             eng.run(sc["horizon"], mask)
             return eng
@@ -150,8 +152,9 @@ def m_time_interval(eng, sid):
     st = {"last": eng.now}
 
     def on_next(v):
-        eng.emit("N", ("ti", v, eng.now - st["last"]))
-        st["last"] = eng.now
+        iv = eng.now - st["last"]
+        st["last"] = eng.now  # before the element leaves: one that arrives during its delivery is measured from now
+        eng.emit("N", ("ti", v, iv))
 
     single(eng, sid, on_next)
 
